@@ -214,6 +214,9 @@ def check_graph(ch, n, graph, spinful, exhaustive):
     require(set(si) == set(deg), "siteinfo:sites", f"{sorted(si, key=str)}")
     bondnames = collections.defaultdict(list)
     for s, info in si.items():
+        require(all(k in info for k in ("coordination", "inds", "duals",
+                                        "shape")),
+                "siteinfo:fields", lambda: f"site {s!r}: {sorted(info)}")
         require(info["coordination"] == deg[s], "siteinfo:coordination",
                 lambda: f"site {s!r}: {info['coordination']} vs degree "
                         f"{deg[s]}")
